@@ -143,6 +143,12 @@ def shape(alone, nests):
             ('none' if not sizes else ('multi' if max(sizes) > 1 else 'singletons')))
 
 
+def n_avail(pat):
+    """number of available alternatives of an availability pattern: an alternative is available when its condition is
+    NON ZERO (the patterns of the part 'avval' hold other values than 0 / 1)."""
+    return sum(1 for v in pat if v)
+
+
 def differs(a, b, rel=REL, ab=ABS):
     """boolean mask (groups, J): entries that differ (NaN differs from everything, -inf == -inf)."""
     import numpy as np
@@ -165,10 +171,10 @@ def compare(rec, clause, name_a, name_b, spec_a, spec_b, table, va, vb, info, re
     rec.observe((clause, name_a, name_b, h))
     for pi, gs in per_pat.items():
         pat = table.pats[pi]
-        nt = sum(pat) >= 2
+        nt = n_avail(pat) >= 2
         key = json.dumps([clause, name_a, name_b, info, pat], sort_keys=True, default=list) if nt else None
         ok = not any(rows_bad[g] for g in gs)
-        rec.case(key, None, outcome=(clause, name_a, sum(pat), ok))
+        rec.case(key, None, outcome=(clause, name_a, n_avail(pat), ok))
         rec.evals += len(gs) - 1
     rec.count('value_vectors_compared', len(table.groups))
     if not rec.samples and len(table.groups) > 2:
@@ -180,8 +186,8 @@ def compare(rec, clause, name_a, name_b, spec_a, spec_b, table, va, vb, info, re
         key = f'{ID}|{clause}|{name_a}~{name_b}|{info["shape"].split(",")[0]}'
         if info.get('availability') in AVFORM_TAG:
             key += '|availabilities-as-' + AVFORM_TAG[info['availability']]
-        if info.get('utilities'):
-            key += '|' + info['utilities']
+        if info.get('utilities') or info.get('availability_values'):
+            key += '|' + (info.get('utilities') or info['availability_values'])
         case = dict(part='pair', clause=clause, a=spec_a, b=spec_b, names=[name_a, name_b], group=grp, info=info)
         rec.violation(key, f'{clause}: {name_a} = {va[g].tolist()} but {name_b} = {vb[g].tolist()} at u={grp["u"]} '
                            f'avail={grp["avail"]} (alts {table.alts}, {info})', case,
@@ -243,6 +249,11 @@ def avforms_for(k, every):
     return list(AVFORMS) if every else [NUMBER_AVFORMS[k % 3], OTHER_AVFORMS[k % 4]]
 
 
+def _int_if_whole(v):
+    """a Python int for a whole number (0 / 1 / a count), the float itself otherwise (availability values of AV_VALUES)."""
+    return int(v) if float(v) == int(v) else float(v)
+
+
 def build_av6(alts, form, pat):
     """B.build_av plus the forms of AVFORMS (reversed order as well).  `pat` is the availability pattern the numbers stand
     for; Variables read the columns AV_<alt> of the table (which hold the same pattern)."""
@@ -253,7 +264,7 @@ def build_av6(alts, form, pat):
     for k in reversed(range(len(alts))):
         a = alts[k]
         if form == 'const':
-            av[a] = int(pat[k])
+            av[a] = _int_if_whole(pat[k])
         elif form == 'cfloat':
             av[a] = float(pat[k])
         elif form == 'cbool':
@@ -262,7 +273,7 @@ def build_av6(alts, form, pat):
             av[a] = Numeric(pat[k])
         elif form in ('mixed', 'mixed2'):
             number = (k % 2 == 0) == (form == 'mixed')
-            av[a] = (int(pat[k]) if k % 4 < 2 else float(pat[k])) if number else Variable(f'AV_{a}')
+            av[a] = (_int_if_whole(pat[k]) if k % 4 < 2 else float(pat[k])) if number else Variable(f'AV_{a}')
         elif form == 'expr':
             # availability of a scenario: the column times a condition on another column (true on every row: 7 != 0)
             av[a] = Variable(f'AV_{a}') * (Variable('aa_unused') != Numeric(0))
@@ -278,6 +289,15 @@ def build_av6(alts, form, pat):
 # the alphabet: it is the engine's documented missing-value code - a Variable holding it raises as soon as it is read.)
 NA_CODES = [[-1000.0, 88888.0], [-99999.0, 800.0], [-750.0, 1.0e6], [-1.0e5, 1500.0], [-5000.0, 9999.0]]
 UTAG = 'not-applicable-utility-codes-of-unavailable-alternatives'
+
+
+def tag_info(info, utag):
+    """label of the special alphabet of the table (UTAG: utilities, AVTAG: availability values) in the case / finding keys."""
+    if utag == AVTAG:
+        return dict(info, availability_values=utag)
+    if utag:
+        return dict(info, utilities=utag)
+    return info
 
 
 def na_codes(seed):
@@ -471,17 +491,19 @@ class Evaluator:
 
 
 # --------------------------------------------------------------------------- (a)-(d) for nested structures
-def check_nested_structure(alph, alts, alone, nests, mus, table, rec, tier, si=0, moved=None, avf=None, light=False, utag=None):
+def check_nested_structure(alph, alts, alone, nests, mus, table, rec, tier, si=0, moved=None, avf=None, light=False, utag=None,
+                           nested_only=False):
     """moved = None: the forms rotate with the structure (as before).  moved = initial-value mode ('zero'|'one'|'comp'):
     every nest parameter, scale and degree of membership is a free parameter evaluated away from its initial value, the
     whole memberships are written as a full matrix with explicit zeros; same clauses, plus cnlmu(mu=1) == cnl.
     avf = one of AVFORMS: the availability conditions of every model of the clauses (logit included) are written in that
     form (one-pattern table).  light: without the scaled versions mu != 1 of clauses (b) and (d).
-    utag: label of a special utility alphabet of the table (UTAG), part of the case and finding keys."""
+    utag: label of a special utility / availability-value alphabet of the table (UTAG, AVTAG), part of the case and finding keys.
+    nested_only: only the pairs that stay inside the nested / logit family (availability conditions with other non-zero values
+    than one: the cross-nested functions use the condition as a weight, clause (b) is outside their domain)."""
     ev = Evaluator(table, rec)
     info = dict(shape=shape(alone, nests), alone=list(alone), nests=[list(n) for n in nests], mus=list(mus))
-    if utag:
-        info['utilities'] = utag
+    info = tag_info(info, utag)
     whole = [{a: 1.0 for a in n} for n in nests]
     muform = B.MUFORMS[si % 3]          # float / fixbeta / numeric
     pf = B.PFORMS[si % 4]               # nest parameters as Numeric / fixed Beta / free Beta / float (both syntaxes)
@@ -509,13 +531,13 @@ def check_nested_structure(alph, alts, alone, nests, mus, table, rec, tier, si=0
                 L['forms'] = dict(av=avf)
             compare(rec, 'nested-with-unit-parameters-differs-from-logit', pre + 'nested', pre + 'logit', N, L, table, vN, ev(L), info)
         # (b) whole memberships -> nested
-        if nests:
+        if nests and not nested_only:
             C = cnl_spec(alts, alone, whole, mus, pre + 'cnl', p=pf, alpha=af, **xf)
             compare(rec, 'cnl-with-whole-memberships-differs-from-nested', pre + 'cnl', pre + 'nested', C, N, table, ev(C), vN, info)
         # (c) scale one
         N1 = nested_spec(alts, alone, nests, mus, pre + 'nested_mev_mu', mu=1.0, p=pf, mu_form=muform, **xf)
         compare(rec, 'scale-one-differs-from-unscaled', pre + 'nested_mev_mu(mu=1)', pre + 'nested', N1, N, table, ev(N1), vN, info)
-        if nests and moved is not None:
+        if nests and moved is not None and not nested_only:
             C1 = cnl_spec(alts, alone, whole, mus, pre + 'cnlmu', mu=1.0, p=pf, alpha=af, mu_form=muform, **xf)
             compare(rec, 'scale-one-differs-from-unscaled', pre + 'cnlmu(mu=1)', pre + 'cnl', C1, C, table, ev(C1), ev(C), info)
             compare(rec, 'cnl-with-whole-memberships-differs-from-nested', pre + 'cnlmu(mu=1)', pre + 'nested', C1, N, table,
@@ -524,14 +546,14 @@ def check_nested_structure(alph, alts, alone, nests, mus, table, rec, tier, si=0
         Nt = nested_spec(alts, alone, nests, mus, pre + 'nested', p=pf, syntax='tuple', **xf)
         compare(rec, 'tuple-syntax-differs-from-nest-objects', pre + 'nested[tuple]', pre + 'nested[objects]', Nt, N, table, ev(Nt), vN,
                 info, rel=1e-13)
-        if nests:
+        if nests and not nested_only:
             Ct = cnl_spec(alts, alone, whole, mus, pre + 'cnl', p=pf, alpha=af, syntax='tuple', **xf)
             compare(rec, 'tuple-syntax-differs-from-nest-objects', pre + 'cnl[tuple]', pre + 'cnl[objects]', Ct, C, table, ev(Ct), ev(C),
                     info, rel=1e-13)
         # scaled versions: (b) and (d) with mu != 1
         for mu in scales:
             Nm = nested_spec(alts, alone, nests, mus, pre + 'nested_mev_mu', mu=mu, p=pf, **xm, **xf)
-            if nests:
+            if nests and not nested_only:
                 Cm = cnl_spec(alts, alone, whole, mus, pre + 'cnlmu', mu=mu, p=pf, alpha=af, **xm, **xf)
                 compare(rec, 'cnl-with-whole-memberships-differs-from-nested', pre + 'cnlmu', pre + 'nested_mev_mu', Cm, Nm, table,
                         ev(Cm), ev(Nm), dict(info, mu=mu))
@@ -539,7 +561,7 @@ def check_nested_structure(alph, alts, alone, nests, mus, table, rec, tier, si=0
                 Nmt = nested_spec(alts, alone, nests, mus, 'nested_mev_mu', mu=mu, p=pf, syntax='tuple', **xm, **xf)
                 compare(rec, 'tuple-syntax-differs-from-nest-objects', 'nested_mev_mu[tuple]', 'nested_mev_mu[objects]', Nmt, Nm,
                         table, ev(Nmt), ev(Nm), dict(info, mu=mu), rel=1e-13)
-                if nests:
+                if nests and not nested_only:
                     Cmt = cnl_spec(alts, alone, whole, mus, 'cnlmu', mu=mu, p=pf, alpha=af, syntax='tuple', **xm, **xf)
                     compare(rec, 'tuple-syntax-differs-from-nest-objects', 'cnlmu[tuple]', 'cnlmu[objects]', Cmt, Cm, table,
                             ev(Cmt), ev(Cm), dict(info, mu=mu), rel=1e-13)
@@ -581,13 +603,12 @@ def check_cnl_structure(alph, alts, alone, nests, mus, table, rec, tier, si=0, m
 
 
 # --------------------------------------------------------------------------- every public entry point
-def check_entry_points(alph, alts, alone, nests, mus, table, rec, avf='var', si=0, utag=None):
+def check_entry_points(alph, alts, alone, nests, mus, table, rec, avf='var', si=0, utag=None, nested_only=False):
     """Clauses (a)-(d) for every public name of the family (ENTRIES), each compared with the canonical unscaled /
     scaled nested logit (or logit) built by the snake_case functions with plain float parameters."""
     ev = Evaluator(table, rec)
     info = dict(shape=shape(alone, nests), alone=list(alone), nests=[list(n) for n in nests], mus=list(mus), availability=avf)
-    if utag:
-        info['utilities'] = utag
+    info = tag_info(info, utag)
     whole = [{a: 1.0 for a in n} for n in nests]
     unit = all(m == 1.0 for m in mus)
     scale = alph['scale'][1]
@@ -622,7 +643,7 @@ def check_entry_points(alph, alts, alone, nests, mus, table, rec, avf='var', si=
         compare(rec, clause, na, nb, sa, sb, table, ev(sa), ev(sb), dict(info, **(extra or {})), rel=rel)
 
     for fam in ('nested', 'cnl'):
-        if fam == 'cnl' and not nests:
+        if fam == 'cnl' and (not nests or nested_only):
             continue
         for e in family_entries(fam):
             c = canon[e['log']]
@@ -641,9 +662,10 @@ def check_entry_points(alph, alts, alone, nests, mus, table, rec, avf='var', si=
                         cmp('scale-one-differs-from-unscaled', name, unscaled[0], So, unscaled[1])
                 elif fam == 'cnl':
                     cmp('cnl-with-whole-memberships-differs-from-nested', name, c['nested_mu'][0], So, c['nested_mu'][1], xi)
-                elif nests:
+                elif nests and not nested_only:
                     cmp('cnl-with-whole-memberships-differs-from-nested', c['cnl_mu'][0], name, c['cnl_mu'][1], So, xi)
-    rec.count('entry_points_exercised', sum(1 for v in ENTRIES.values() if v[1] != 'generating' and (nests or v[0] == 'nested')))
+    rec.count('entry_points_exercised', sum(1 for v in ENTRIES.values() if v[1] != 'generating' and
+                                            (v[0] == 'nested' or (nests and not nested_only))))
 
 
 # --------------------------------------------------------------------------- (d) terms and (e) generating function
@@ -752,8 +774,7 @@ def check_generating(alph, alts, alone, nests, mus, table, rec, syntax='obj', av
                 syntax=syntax, avform=avform, uform=uform, pform=pform)
     if entries is not None:
         info = dict(info, entries=list(entries), init=init)
-    if utag:
-        info = dict(info, utilities=utag)
+    info = tag_info(info, utag)
     ref_nests = list(zip(mus, nests))
     interesting = bool(alone) or any(m != 1.0 for m in mus)
     done = set()
@@ -808,16 +829,16 @@ def check_generating(alph, alts, alone, nests, mus, table, rec, syntax='obj', av
                               f'(alone={list(alone)} nests={[list(n) for n in nests]} mus={list(mus)}, nests as {syntax})',
                               dict(case, alt=a), expected=t, observed=lg)
         per_pat_ok.setdefault(pi, []).append(ok)
-        if not rec.samples and interesting and sum(pat) >= 2:
+        if not rec.samples and interesting and n_avail(pat) >= 2:
             rec.sample(dict(clause='generating function', structure=info, V={str(a): V[a] for a in alts}, availability=list(pat),
                             G_engine=float(Gv[g]), G_closed_form=Gref, dG_dV_engine=[float(x) for x in grad[g]],
                             published_terms=[float(x) for x in T[g]],
                             reference_ln_Gi={str(a): math.log(v) for a, v in Giref.items()}))
     for pi, oks in per_pat_ok.items():
         pat = table.pats[pi]
-        nt = interesting and sum(pat) >= 1
+        nt = interesting and n_avail(pat) >= 1
         key = json.dumps(['gen', info, pat], sort_keys=True, default=list) if nt else None
-        rec.case(key, None, outcome=('gen', info['shape'], sum(pat), all(oks)))
+        rec.case(key, None, outcome=('gen', info['shape'], n_avail(pat), all(oks)))
         rec.evals += len(oks) - 1
     rec.count('derivative_rows_compared', len(table.groups))
 
